@@ -108,6 +108,7 @@ class Ctx:
         self.trusted = ["Lean 4.33.0 kernel"]
         self.assumptions = []
         self.proof_ok = True
+        self.soft_msgs = []         # translators that fell back to documented constants (see extract_core.extractor)
         self.proof_msgs = []
         self.rules = []
         self._seen = set()
@@ -124,6 +125,10 @@ class Ctx:
 
     def quick(self):
         return self.tier == "quick"
+
+    def enlarge(self):
+        """run the correspondence with the 10x budget as well?"""
+        return (not self.proof_ok) or bool(self.soft_msgs)
 
 
 def load_known():
@@ -158,6 +163,11 @@ def regen(ctx, prop_modules=None):
     out = []
     for mod, m in msgs:
         if cone is not None and mod is not None and ("Percival.Gen." + mod) not in cone:
+            continue
+        if m.startswith("SOFT "):
+            # a translator whose items are all exercised at L1: not a broken tie, but the correspondence is enlarged
+            if m not in ctx.soft_msgs:
+                ctx.soft_msgs.append(m)
             continue
         ctx.proof_msgs.append("extract: " + m)
         ctx.proof_ok = False
@@ -763,6 +773,9 @@ def finish(ctx, level="proof", prop_modules=(), explanation=None):
     cov["trusted_base"] = ctx.trusted
     cov["rule"] = " || ".join(ctx.rules)
     cov["proof_audit_messages"] = ctx.proof_msgs
+    if ctx.soft_msgs:
+        cov["translator_fallbacks"] = ctx.soft_msgs
+        ctx.assumptions.append("translator fallback in this run: " + "; ".join(ctx.soft_msgs))
     if explanation:
         cov["explanation"] = explanation
     ev = {"property_id": ctx.pid, "tier": ctx.tier, "seed": ctx.seed, "level": level,
@@ -778,7 +791,8 @@ def finish(ctx, level="proof", prop_modules=(), explanation=None):
     if not ctx.violations:
         print("OK property=%s tier=%s seed=%d obligations=%d/%d cases=%d nontrivial=%d wall=%.1fs" % (
             ctx.pid, ctx.tier, ctx.seed, len(ctx.discharged), len(ctx.obligations),
-            cov["evaluations"], cov["distinct_nontrivial"], time.time() - ctx.t0))
+            cov["evaluations"], cov["distinct_nontrivial"], time.time() - ctx.t0)
+            + (" translator-fallbacks=%d" % len(ctx.soft_msgs) if ctx.soft_msgs else ""))
     sys.stdout.flush()
     ctx.cleanup()
     return 1 if ctx.violations else 0
@@ -792,8 +806,8 @@ def standard_check(ctx, prop_modules, components, level="proof", assumptions=(),
     for comp in components:
         ctx.rules.append("%s: %s" % (comp.name, comp.rule))
         fails = check_component(ctx, comp)
-        if not ctx.proof_ok and not [f for f in fails if f["kind"] == "L1"]:
-            # broken proof: enlarge the search
+        if ctx.enlarge() and not [f for f in fails if f["kind"] == "L1"]:
+            # broken proof, or a translator fell back to documented constants: enlarge the search
             fails += check_component(ctx, comp, budget_mult=10)
         process_failures(ctx, comp, fails)
     if extra_run:
